@@ -415,3 +415,97 @@ Proof.
   rewrite Ew', Ew, Hr'.
   apply aes_rk_dec_enc; try assumption. split; assumption.
 Qed.
+
+(* ===================== the block function as used by the modes: length, range, injectivity ===================== *)
+Lemma aes_key_decomp key : length key = 16 \/ length key = 24 \/ length key = 32 ->
+  exists k0 mid kl, aes_set_encrypt_key key = Some (k0 ++ concat mid ++ kl, S (length mid)) /\
+    length k0 = 4 /\ keys_ok mid /\ length kl = 4.
+Proof.
+  intros Hk.
+  assert (Hsome : exists w r, aes_set_encrypt_key key = Some (w, r)).
+  { unfold aes_set_encrypt_key.
+    destruct Hk as [->|[->| ->]];
+      [change (aes_rounds 16) with (Some 10)|change (aes_rounds 24) with (Some 12)|change (aes_rounds 32) with (Some 14)];
+      eexists; eexists; reflexivity. }
+  destruct Hsome as (w & r & Hw).
+  destruct (aes_set_encrypt_key_length _ _ _ Hw) as [Hlen Hr].
+  destruct (groups4_keys_ok (r + 1) w ltac:(lia)) as [Hok Hn].
+  pose proof (concat_groups4 (r + 1) w Hlen) as Hcat.
+  set (ks := groups4 (r + 1) w) in *.
+  destruct ks as [|k0 ks'] eqn:Eks; [cbn in Hn; lia|].
+  destruct (exists_last (l := ks')) as (mid & kl & ->); [intros ->; cbn in Hn; lia|].
+  pose proof (Forall_inv Hok) as H0. pose proof (Forall_inv_tail Hok) as Hrest. cbn beta in H0.
+  apply Forall_app in Hrest. destruct Hrest as [Hmid Hkl]. pose proof (Forall_inv Hkl) as Hkl4. cbn beta in Hkl4.
+  assert (Hr' : r = S (length mid)).
+  { cbn [length] in Hn. rewrite app_length in Hn. cbn [length] in Hn. lia. }
+  exists k0, mid, kl. split; [|auto].
+  rewrite Hw. f_equal. f_equal; [|exact Hr'].
+  rewrite <- Hcat. cbn [concat]. rewrite concat_app. cbn [concat]. rewrite app_nil_r. reflexivity.
+Qed.
+
+Lemma aes_encrypt_rk_form k0 mid kl blk : length k0 = 4 -> keys_ok mid -> length kl = 4 ->
+  aes_encrypt_rk (k0 ++ concat mid ++ kl) (S (length mid)) blk
+  = fin (fold_left rnd mid (add_round_key blk k0)) kl.
+Proof.
+  intros H0 Hm Hl. unfold aes_encrypt_rk.
+  replace (S (length mid) - 1) with (length mid) by lia.
+  rewrite !firstn_app, !skipn_app. replace (4 - length k0) with 0 by lia.
+  rewrite !firstn_O, !skipn_O, !app_nil_r, !firstn_all2, !skipn_all2 by lia. cbn [app].
+  rewrite enc_rounds_fold by exact Hm. rewrite firstn_all2 by lia. reflexivity.
+Qed.
+
+Lemma fin_wf s k : wf s -> length k = 4 -> wf (fin s k).
+Proof. intros Hs Hk. unfold fin. apply ark_wf; [|exact Hk]. apply shift_rows_wf, sub_bytes_wf, Hs. Qed.
+
+Theorem aes_encrypt_block_wf key blk :
+  length key = 16 \/ length key = 24 \/ length key = 32 -> wf blk -> wf (aes_encrypt_block key blk).
+Proof.
+  intros Hk Hb. destruct (aes_key_decomp key Hk) as (k0 & mid & kl & Hw & H0 & Hm & Hl).
+  unfold aes_encrypt_block. rewrite Hw, aes_encrypt_rk_form by assumption.
+  apply fin_wf; [|exact Hl]. apply fold_rnd_wf; [|exact Hm]. apply ark_wf; assumption.
+Qed.
+
+(* normalising wrapper: any list is read as a block of 16 bytes (identity on well-formed blocks) *)
+
+Lemma Forall_firstn {A} (P : A -> Prop) n : forall l, Forall P l -> Forall P (firstn n l).
+Proof. induction n as [|n IH]; intros [|x l] H; cbn; try constructor; inversion H; subst; auto. Qed.
+Lemma Forall_zeros n : Forall byte_ok (zeros n).
+Proof. induction n; cbn; constructor; [exact byte0|assumption]. Qed.
+Lemma norm16_wf x : wf (norm16 x).
+Proof.
+  unfold norm16. split.
+  - rewrite firstn_length, app_length, zeros_length. lia.
+  - apply Forall_firstn, Forall_app. split; [|apply Forall_zeros].
+    apply Forall_forall. intros b Hb. apply in_map_iff in Hb. destruct Hb as [c [<- _]]. apply w8_byte.
+Qed.
+Lemma wf_blk_ok x : wf x <-> blk_ok x.
+Proof.
+  unfold wf, blk_ok, bytes_ok. split; intros [Hl H]; split; try exact Hl.
+  - apply forallb_forall. intros b Hb. rewrite Forall_forall in H. apply N.ltb_lt, H, Hb.
+  - apply Forall_forall. intros b Hb. rewrite forallb_forall in H. apply N.ltb_lt, H, Hb.
+Qed.
+Lemma w8_id b : (b < 256)%N -> w8 b = b.
+Proof. intros H. unfold w8. change 255%N with (N.ones 8). rewrite N.land_ones. apply N.mod_small. exact H. Qed.
+Lemma norm16_id x : wf x -> norm16 x = x.
+Proof.
+  intros [Hl Hb]. unfold norm16.
+  assert (Hm : map w8 x = x).
+  { rewrite <- (map_id x) at 2. apply map_ext_in. intros b Hin. apply w8_id. rewrite Forall_forall in Hb. apply Hb, Hin. }
+  rewrite Hm, firstn_app, Hl, Nat.sub_diag, firstn_O, app_nil_r. apply firstn_all2. lia.
+Qed.
+
+Section AesE.
+  Variable key : list N.
+  Hypothesis Hk : length key = 16 \/ length key = 24 \/ length key = 32.
+  Lemma aesE_len x : length (aes_encrypt_block16 key x) = 16.
+  Proof. apply (aes_encrypt_block_wf key _ Hk (norm16_wf x)). Qed.
+  Lemma aesE_ok x : bytes_ok (aes_encrypt_block16 key x) = true.
+  Proof. apply (proj1 (wf_blk_ok _) (aes_encrypt_block_wf key _ Hk (norm16_wf x))). Qed.
+  Lemma aesE_inj x x' : blk_ok x -> blk_ok x' -> aes_encrypt_block16 key x = aes_encrypt_block16 key x' -> x = x'.
+  Proof.
+    intros Hx Hx' HE. apply wf_blk_ok in Hx. apply wf_blk_ok in Hx'.
+    unfold aes_encrypt_block16 in HE. rewrite !norm16_id in HE by assumption.
+    destruct Hx as [Hl Hb], Hx' as [Hl' Hb'].
+    rewrite <- (aes_dec_enc key x Hk Hl Hb), <- (aes_dec_enc key x' Hk Hl' Hb'), HE. reflexivity.
+  Qed.
+End AesE.
